@@ -110,7 +110,7 @@ PROPS['C06'] = dict(
     level_text='bounded stand-in: for each listed text template the harness covers every value of every numeric field and a rejection at every conversion point after every amount of partial progress; on Err the observable parser state (hit objects, last-object marker, state-held path buffer, pending control-point slots and group time) equals the state before the line',
     level_note='assumed: std text->number conversion (replaced by nondeterministic results), memchr_aligned == naive search; text shapes outside the templates are not decided; flush_pending_points is used through its Verus-proved contract',
     verus=[], kani=['support.kc', 'ho_lines.kc', 'tp_lines.kc', 'c11_sections.kc'],
-    only_prefix=['ho_path_', 'ho_line_', 'ho_slider_line', 'tp_line_', 'c11_difficulty_', 'c11_general_', 'c11_event_', 'c11_color_'],
+    only_prefix=['ho_path_', 'ho_line_', 'ho_slider_line', 'tp_line_', 'c11_difficulty_', 'c11_general_', 'c11_event_', 'c11_color_', 'c11_editor_', 'c11_metadata_'],
     kani_functions=['src/section/hit_objects/decode.rs :: impl HitObjectsState :: fn convert_path_str / fn convert_points / fn point_split',
                     'src/section/hit_objects/decode.rs :: impl DecodeBeatmap for HitObjects :: fn parse_hit_objects',
                     'src/section/timing_points/decode.rs :: impl DecodeBeatmap for TimingPoints :: fn parse_timing_points'],
@@ -138,9 +138,9 @@ PROPS['C07'] = dict(
 PROPS['C15'] = dict(
     category='other',
     technique='Kani contracts on the real map-level helpers: loop-free full-domain harnesses (sample defaults, beat-length scaling) and a bounded harness for break post-processing',
-    level_text='SamplePoint::apply proved (Kani, every i32 / bank value: defaults taken only when unspecified, file samples normalised, unsafe suffix guard); get_precision_adjusted_beat_len: domain facts proved for every f64 pair, the clamp(100/sv, 10, M)/100 scaling checked on listed values (bounded); post_process_breaks bounded stand-in (3 objects x 2 breaks, every finite time)',
+    level_text='post_process_breaks proved panic-free and count-preserving for every number of objects and breaks (Verus; its combo rule itself is only a bounded Kani stand-in). SamplePoint::apply proved (Kani, every i32 / bank value: defaults taken only when unspecified, file samples normalised, unsafe suffix guard); get_precision_adjusted_beat_len: domain facts proved for every f64 pair, the clamp(100/sv, 10, M)/100 scaling checked on listed values (bounded); post_process_breaks bounded stand-in (3 objects x 2 breaks, every finite time)',
     level_note='not decided: shift invariance (a 2-safety property over two runs of the whole decoder through dec2flt), stable sort of the object list, the velocity / duration formulas inside From<HitObjectsState> (need curve computation), node sample lookup times',
-    verus=[], kani=['c15.kc', 'c15_sample.kc'],
+    verus=[dict(unit='c15', tier='quick')], kani=['c15.kc', 'c15_sample.kc'],
     kani_functions=['src/section/hit_objects/decode.rs :: fn get_precision_adjusted_beat_len', 'src/section/hit_objects/decode.rs :: impl HitObjectsState :: fn post_process_breaks',
                     'src/section/timing_points/control_points/sample.rs :: impl SamplePoint :: fn apply'],
     explanation='see level_text; per-obligation statements in coverage.samples[].states',
